@@ -12,7 +12,15 @@ A. under `LawfulOps`: `jvpX (oneHot i) f = ∂i f` for every `i < d`, every `d`;
 B. grids: the row-major entry of multi-index `(i_0, …, i_{D-1})` of `_get_grid` is
    `(X[i_0][0], …, X[i_{D-1}][D-1])` (axis `k` ↔ column `k`, time first); the separable network's output at
    that index is its pointwise twin `Σ_{r<R} Π_{k<D} feat k (·) (m·R + r)` at that point;
-C. combining: the forward-mode grid value at an index is the reverse-mode value at the corresponding point.
+C. combining: the forward-mode grid value at an index is the reverse-mode value at the corresponding point
+   (operators, built-in residuals; Fokker-Planck under evaluations that are additive at every point);
+D. the SPINN branches of the Dirichlet / Neumann boundary terms, of the initial-condition term and of the two
+   normalisation terms equal the PINN branches evaluated on the list of grid points `_get_grid(batch)`;
+E. transfer to the executable instance (`polyOps_lawful`, `Poly.eval` is additive and homogeneous);
+F. the model's own trace satisfies `Holds.C11`; `example`s of non-vacuity.
+
+Everything is for all dimensions, numbers of axes, embedding sizes, outputs, batches and parameters.
+Core Lean only (ring goals over `Rat` are closed by `grind`).
 -/
 import JinnsModel.Operators
 import JinnsModel.Residuals
@@ -550,6 +558,103 @@ theorem icFwd_eq_icRev (U f : List Rat → List Rat) (w : Rat) (n : Nat) (hn : 0
     rw [zipWith_map_same]
   · rfl
 
+/-! ### normalisation -/
+
+theorem sumQ_append (a b : List Rat) : sumQ (a ++ b) = sumQ a + sumQ b := by
+  unfold sumQ
+  induction a with
+  | nil => simp only [List.nil_append, List.foldr_nil]; grind
+  | cons x a ih => simp only [List.cons_append, List.foldr_cons, ih]; grind
+
+theorem sumQ_flatten : ∀ ls : List (List Rat), sumQ ls.flatten = sumQ (ls.map sumQ)
+  | [] => rfl
+  | l :: ls => by
+    rw [List.flatten_cons, sumQ_append, sumQ_flatten ls]
+    rfl
+
+theorem sumQ_map_div (c : Rat) : ∀ l : List Rat, sumQ (l.map (fun x => x / c)) = sumQ l / c
+  | [] => by simp only [List.map_nil, sumQ, List.foldr_nil]; grind
+  | x :: l => by
+    have ih := sumQ_map_div c l
+    simp only [sumQ, List.map_cons, List.foldr_cons] at ih ⊢
+    rw [ih]; grind
+
+theorem length_flatten_uniform (M : Nat) : ∀ ls : List (List Rat), (∀ l ∈ ls, l.length = M) →
+    ls.flatten.length = ls.length * M
+  | [], _ => by simp
+  | l :: ls, h => by
+    rw [List.flatten_cons, List.length_append, h l (List.mem_cons_self),
+      length_flatten_uniform M ls (fun l' hl' => h l' (List.mem_cons_of_mem _ hl')), List.length_cons,
+      Nat.succ_mul, Nat.add_comm]
+
+/-- the mean of the per-entry means of equally long component lists is the joint mean -/
+theorem mean_map_mean (M : Nat) (ls : List (List Rat)) (hM : ∀ l ∈ ls, l.length = M) :
+    mean (ls.map mean) = mean ls.flatten := by
+  have e1 : ls.map mean = (ls.map sumQ).map (fun x => x / (M : Rat)) := by
+    rw [List.map_map]
+    apply List.map_congr_left
+    intro l hl
+    simp [mean, hM l hl]
+  have e2 : mean (ls.map mean) = sumQ (ls.map mean) / (ls.length : Rat) := by simp [mean]
+  have e3 : mean ls.flatten = sumQ ls.flatten / ((ls.length * M : Nat) : Rat) := by
+    simp [mean, length_flatten_uniform M ls hM]
+  rw [e2, e3, sumQ_flatten, e1, sumQ_map_div, Rat.natCast_mul]
+  grind
+
+theorem sumQ_flatMap_replicate (g : Rat → Rat) (rep : Nat) : ∀ T : List Rat,
+    sumQ ((T.flatMap (fun t => List.replicate rep t)).map g) = (rep : Rat) * sumQ (T.map g)
+  | [] => by simp [sumQ]
+  | t :: T => by
+    have ih := sumQ_flatMap_replicate g rep T
+    have hr : ∀ k : Nat, sumQ ((List.replicate k t).map g) = (k : Rat) * g t := by
+      intro k
+      induction k with
+      | zero => simp [sumQ]
+      | succ k ihk =>
+        simp only [List.replicate_succ, List.map_cons, sumQ, List.foldr_cons] at ihk ⊢
+        rw [ihk]; simp; grind
+    rw [List.flatMap_cons, List.map_append, sumQ_append, ih, hr rep]
+    simp only [List.map_cons, sumQ, List.foldr_cons]
+    grind
+
+/-- repeating every time `rep > 0` times does not change a mean over the times -/
+theorem mean_flatMap_replicate (g : Rat → Rat) (rep : Nat) (hrep : rep ≠ 0) (T : List Rat) :
+    mean ((T.flatMap (fun t => List.replicate rep t)).map g) = mean (T.map g) := by
+  have hl : (T.flatMap (fun t => List.replicate rep t)).length = rep * T.length := by
+    induction T with
+    | nil => simp
+    | cons t T ih => simp only [List.flatMap_cons, List.length_append, List.length_replicate, ih, List.length_cons]; grind
+  have hr : (rep : Rat) ≠ 0 := by simpa using hrep
+  unfold mean
+  rw [sumQ_flatMap_replicate, List.length_map, List.length_map, hl, Rat.natCast_mul]
+  grind
+
+/-- **stationary normalisation term**: the SPINN branch on a batch equals the PINN branch on the list of grid
+    points (every sample carries the same number `M` of solution components) -/
+theorem normFwdStatio_eq_normRevStatio (U : List Rat → List Rat) (M : Nat) (hU : ∀ p, (U p).length = M)
+    (X : List (List Rat)) (D : Nat) (L w : Rat) :
+    normFwdStatio U X D L w = normRevStatio U (getGrid X D) L w := by
+  unfold normFwdStatio normRevStatio gridOf getGrid
+  show w * absSq (mean (List.map mean (List.map U (cartProd (columns X D)))) * L - 1) = _
+  rw [mean_map_mean M _ (by intro l hl; obtain ⟨p, _, rfl⟩ := List.mem_map.mp hl; exact hU p)]
+
+/-- **non-stationary normalisation term**: the SPINN branch (times repeated `rep > 0` times to the size of the
+    sample batch, grid over `(t, x)`) equals the PINN branch on the times and the list of spatial grid points -/
+theorem normFwdNonStatio_eq_normRevNonStatio (U : List Rat → List Rat) (M : Nat) (hU : ∀ p, (U p).length = M)
+    (T : List Rat) (rep : Nat) (hrep : rep ≠ 0) (Xs : List (List Rat)) (Dx : Nat) (L w : Rat) :
+    normFwdNonStatio U T rep Xs Dx L w = normRevNonStatio U T (getGrid Xs Dx) L w := by
+  unfold normFwdNonStatio normRevNonStatio
+  simp only [List.map_map]
+  have e : ∀ t : Rat, mean (gridOf (fun x => mean (U (t :: x))) (columns Xs Dx))
+      = mean ((getGrid Xs Dx).map (fun x => U (t :: x))).flatten := by
+    intro t
+    rw [← mean_map_mean M _ (by intro l hl; obtain ⟨p, _, rfl⟩ := List.mem_map.mp hl; exact hU _), List.map_map]
+    rfl
+  have e2 : ((fun r => absSq (mean r * L - 1)) ∘ fun t => gridOf (fun x => mean (U (t :: x))) (columns Xs Dx))
+      = fun t => absSq (mean ((getGrid Xs Dx).map (fun x => U (t :: x))).flatten * L - 1) := by
+    funext t; simp only [Function.comp, e t]
+  rw [e2, mean_flatMap_replicate _ rep hrep T]
+
 end Jinns.SpinnTerms
 
 namespace Jinns.Grid
@@ -739,4 +844,47 @@ theorem model_holdsC11_ops (op : OpName) (sig : Sig) (d m : Nat) (u : List Poly)
   model_holdsC11 _ _ (fun p => by rw [runFwd_eq_runRev op sig]) cols
 
 end Jinns.Holds
+
+/-! ## non-vacuity: the hypotheses are met by concrete, non-trivial instances -/
+
+namespace Jinns.Grid
+open Jinns.Calc Jinns.Operators Jinns.Holds
+
+/-- `LawfulOps` is inhabited by the executable instance -/
+example : LawfulOps polyOps := polyOps_lawful
+
+/-- `EvalHom` is inhabited at every point -/
+example : Jinns.Residuals.EvalHom polyOps (fun p => Poly.eval p [1, 2, 3]) := polyEvalHom _
+
+/-- the tensor product of two axes, first axis slowest -/
+example : cartProd [[10, 20], [1, 2, 3]] = [[10, 1], [10, 2], [10, 3], [20, 1], [20, 2], [20, 3]] := by decide
+
+example : flatIndex [2, 3] [1, 2] = 5 := by decide
+
+example : ValidIdx [[10, 20], [1, 2, 3]] [1, 2] := ⟨by decide, by decide, trivial⟩
+
+example : (cartProd [[10, 20], [1, 2, 3]])[flatIndex [2, 3] [1, 2]]? = some (pick 0 [[10, 20], [1, 2, 3]] [1, 2]) :=
+  cartProd_getElem 0 _ _ ⟨by decide, by decide, trivial⟩
+
+example : IdxIn 3 2 [2, 0] := ⟨rfl, by decide⟩
+
+/-- `jvp_oneHot` on a concrete field, `d = 3`, `i = 1`: `∂/∂x_1 (t·x_0·x_1²·x_2)` (exponent lists) -/
+example : (jvpX polyOps 3 (oneHot 1) [(1, [1, 1, 2, 1])]).map (·.2) = [[1, 1, 1, 1]] := by
+  rw [jvp_oneHot polyOps polyOps_lawful 3 1 (by omega)]; decide
+
+/-- forward and reverse Laplacian of `x_0²·x_1²` in `d = 2`: the same two monomials -/
+example : (lapFwd polyOps 2 (fun _ => [(1, [0, 2, 2])])).map (·.2) = [[0, 0, 2], [0, 2, 0]] := by
+  rw [lapFwd_eq_lapRev polyOps polyOps_lawful 2 .noTime]; decide
+
+/-- every output list of the twin of a separable network has `M` components: the hypothesis `hU` of the
+    normalisation theorems holds for the networks C11 is about -/
+theorem twin_length (feat : Nat → Rat → List Rat) (R M D : Nat) (p : List Rat) :
+    (twin feat R M D p).length = M := by simp [twin]
+
+example (feat : Nat → Rat → List Rat) (X : List (List Rat)) (L w : Rat) :
+    Jinns.SpinnTerms.normFwdStatio (twin feat 2 3 2) X 2 L w
+      = Jinns.SpinnTerms.normRevStatio (twin feat 2 3 2) (getGrid X 2) L w :=
+  Jinns.SpinnTerms.normFwdStatio_eq_normRevStatio _ 3 (twin_length feat 2 3 2) X 2 L w
+
+end Jinns.Grid
 
